@@ -190,7 +190,16 @@ func genFaults(cfg simkit.RunConfig, backend string) *Scenario {
 	sc, _ := baseShape(cfg, shape, backend)
 	mark := fmt.Sprintf("end%d", sc.Txns[0].ID)
 	if pos < singles {
-		sc.Net.Plan[fmt.Sprintf("ord:0:%s+%d", mark, pos/len(commitFaults))] = commitFaults[pos%len(commitFaults)]
+		f := commitFaults[pos%len(commitFaults)]
+		sc.Net.Plan[fmt.Sprintf("ord:0:%s+%d", mark, pos/len(commitFaults))] = f
+		if f == simkit.Stall {
+			// the committer is slow (its locks outlive their ttl while it is still running): the status checks of the
+			// other clients are slow too, so that a check is asked before the expiry instant and answered after it
+			sc.Net.Random = true
+			sc.Net.Rate = 0.5
+			sc.Net.Kinds = []simkit.Fate{simkit.Delay}
+			sc.Net.OnlyTypes = []string{"CheckTxnStatus", "CheckSecondaryLocks"}
+		}
 	} else if pos%4 == 3 {
 		// a fault that does not heal: one lost message, then the same region error / loss for every later
 		// request of the committer (its back-off budget runs out), or the caller's context is cancelled
@@ -242,7 +251,11 @@ func genLeftover(cfg simkit.RunConfig, backend string) *Scenario {
 					lk.WaitMs = 20 + r.Intn(300)
 				}
 				at := r.Intn(len(p.Ops) + 1)
-				p.Ops = append(p.Ops[:at], append([]Op{lk}, p.Ops[at:]...)...)
+				ins := []Op{lk}
+				if len(lk.Keys) > 1 && (lk.NoWait || lk.WaitMs > 0) && r.Intn(3) == 0 {
+					ins = append(ins, lk) // the statement is retried at once with the same keys
+				}
+				p.Ops = append(p.Ops[:at], append(ins, p.Ops[at:]...)...)
 			}
 		}
 		// aggressive (fair) locking stages: start, lock attempts (some failing), retries, then done or cancel
@@ -300,6 +313,7 @@ func genLeftover(cfg simkit.RunConfig, backend string) *Scenario {
 		sc.Knobs.CommitBatchSize = 1
 	}
 	sc.Knobs.LongTTL = true
+	sc.Knobs.Delays = genDelays(r)
 	return sc
 }
 
@@ -639,6 +653,109 @@ func genStaleLock(cfg simkit.RunConfig, backend string) *Scenario {
 	case pos < 2*maxCrashPos:
 		sc.Net.Plan[fmt.Sprintf("ord:0:%s+%d", mark, pos-maxCrashPos)] = simkit.CrashAfter
 	default: // no crash: the committer finishes by itself, the stale locks stay
+	}
+	return sc
+}
+
+// genLockRetry: mode "lockretry" (C01). Retried lock statements whose clean-up arrives late: a pessimistic
+// transaction locks several keys in one statement while another transaction holds one of them for a short while;
+// the statement fails (no-wait / lock-wait time-out) after it locked the other keys, is repeated at once with a
+// fresh for-update timestamp and succeeds; the asynchronous clean-up of the failed attempt is delayed (failpoint
+// knob) and reaches the store after the retry. The locker then keeps the keys for a while; writers try to get in.
+// Two thirds of the runs are free of message faults, so that the lock-exclusion rule applies.
+func genLockRetry(cfg simkit.RunConfig, backend string) *Scenario {
+	r := simkit.Rand(cfg.Seed, "gen")
+	sc := &Scenario{Backend: backend, Victim: -1, Clients: 3}
+	sc.Stores, sc.Splits = genLayout(r)
+	if r.Intn(2) == 0 {
+		sc.Splits = subset(r, []string{"b", "c", "d"}, 1, 3)
+	}
+	nk := 2 + r.Intn(3)
+	keys := keyPool[:nk]
+	id := 0
+	nlock := 1 + r.Intn(2)
+	for i := 0; i < nlock; i++ {
+		a := TxnProg{ID: id, Client: i % 2, DelayMs: 5 + r.Intn(20), Pessimistic: true, End: "commit"}
+		if backend == "R" {
+			switch r.Intn(3) {
+			case 1:
+				a.Async = true
+			case 2:
+				a.OnePC = true
+			}
+		}
+		lk := Op{Kind: "lock", Keys: subset(r, keys, 2, len(keys)), Retry: 1 + r.Intn(3), RetVals: r.Intn(2) == 0}
+		if r.Intn(3) == 0 {
+			r.Shuffle(len(lk.Keys), func(x, y int) { lk.Keys[x], lk.Keys[y] = lk.Keys[y], lk.Keys[x] })
+		}
+		if r.Intn(3) == 0 {
+			lk.NoWait = true
+		} else {
+			lk.WaitMs = 5 + r.Intn(80)
+		}
+		a.Ops = append(a.Ops, lk, Op{Kind: "sleep", SleepMs: 100 + r.Intn(2500)})
+		for j, k := range subset(r, lk.Keys, 1, len(lk.Keys)) {
+			a.Ops = append(a.Ops, Op{Kind: pick(r, []string{"set", "set", "delete"}), Keys: []string{k}, Val: fmt.Sprintf("a%d.%d", id, j)})
+		}
+		if r.Intn(2) == 0 {
+			a.Ops = append(a.Ops, Op{Kind: "sleep", SleepMs: 20 + r.Intn(400)})
+		}
+		if r.Intn(6) == 0 {
+			a.End = "rollback"
+		}
+		for j := range a.Ops {
+			if a.Ops[j].Kind == "delete" {
+				a.Ops[j].Val = ""
+			}
+		}
+		sc.Txns = append(sc.Txns, a)
+		id++
+	}
+	// blockers: hold one key (not the first of the statement, most of the time) for a short while
+	nb := 1 + r.Intn(2)
+	for i := 0; i < nb; i++ {
+		b := TxnProg{ID: id, Client: 2, DelayMs: r.Intn(12), Pessimistic: true, End: pick(r, []string{"rollback", "commit"})}
+		k := keys[1+r.Intn(len(keys)-1)]
+		if r.Intn(5) == 0 {
+			k = keys[0]
+		}
+		b.Ops = append(b.Ops, Op{Kind: "lock", Keys: []string{k}, WaitMs: 200}, Op{Kind: "sleep", SleepMs: 10 + r.Intn(120)})
+		if b.End == "commit" {
+			b.Ops = append(b.Ops, Op{Kind: "set", Keys: []string{k}, Val: fmt.Sprintf("b%d", id)})
+		}
+		sc.Txns = append(sc.Txns, b)
+		id++
+	}
+	// writers that try to get in while the lockers hold the keys
+	nw := 1 + r.Intn(3)
+	for i := 0; i < nw; i++ {
+		c := TxnProg{ID: id, Client: 1 + r.Intn(2), DelayMs: 60 + r.Intn(2500), Pessimistic: r.Intn(2) == 0, End: "commit"}
+		k := pick(r, keys)
+		if c.Pessimistic {
+			c.Ops = append(c.Ops, Op{Kind: "lock", Keys: []string{k}, WaitMs: 20 + r.Intn(300)})
+		}
+		c.Ops = append(c.Ops, Op{Kind: "set", Keys: []string{k}, Val: fmt.Sprintf("c%d", id)})
+		if r.Intn(3) == 0 {
+			c.Ops = append(c.Ops, Op{Kind: "get", Keys: []string{pick(r, keys)}})
+		}
+		sc.Txns = append(sc.Txns, c)
+		id++
+	}
+	sc.Net.JitterUs = []int{0, 500, 3000}[r.Intn(3)]
+	if r.Intn(3) == 0 {
+		sc.Net.Random = true
+		sc.Net.Rate = []float64{0.03, 0.1}[r.Intn(2)]
+		sc.Net.Kinds = append([]simkit.Fate(nil), benignFaults...)
+	}
+	if r.Intn(3) == 0 {
+		sc.Topo = append(sc.Topo, TopoEvent{AtMs: r.Intn(200), Kind: pick(r, []string{"split", "leader", "merge"}), Key: pick(r, keys)})
+	}
+	if r.Intn(3) == 0 {
+		sc.Knobs.CommitBatchSize = 1
+	}
+	sc.Knobs.Delays = map[string]int{"beforeAsyncPessimisticRollback": 1}
+	if r.Intn(4) == 0 {
+		sc.Knobs.Delays = nil
 	}
 	return sc
 }
